@@ -512,6 +512,7 @@ type Contract struct {
 	File       string
 	Ghost      []string
 	Reveal     []string // opaque spec functions whose bodies this function's proof may use
+	Inline     []string // callees executed transparently in this function's proof
 }
 
 type SpecLet struct {
@@ -590,7 +591,7 @@ func (sp *Specs) loadSpecFile(path, pkgPath string) error {
 		}
 		first := strings.Fields(trim)[0]
 		switch first {
-		case "func", "spec", "lemma", "axiom", "requires", "ensures", "loop", "inst", "allow_panic", "trusted", "pure", "modifies", "let", "package", "assert", "noinline", "ghost", "reveal":
+		case "func", "spec", "lemma", "axiom", "requires", "ensures", "loop", "inst", "allow_panic", "trusted", "pure", "modifies", "let", "package", "assert", "noinline", "ghost", "reveal", "inline":
 			clauses = append(clauses, rawClause{trim, i + 1})
 		default:
 			if len(clauses) == 0 {
@@ -747,6 +748,12 @@ func (sp *Specs) loadSpecFile(path, pkgPath string) error {
 			for _, n := range strings.Split(rest, ",") {
 				cur.Reveal = append(cur.Reveal, strings.TrimSpace(n))
 			}
+		case "inline":
+			// inline f, g: calls to these (small, loop-free) callees are executed transparently in
+			// this function's proof instead of through their contracts
+			for _, n := range strings.Split(rest, ",") {
+				cur.Inline = append(cur.Inline, strings.TrimSpace(n))
+			}
 		case "modifies":
 			if rest == "*" {
 				cur.ModifiesAll = true
@@ -870,6 +877,29 @@ func splitTop(s string) []string {
 		out = append(out, strings.TrimSpace(s[last:]))
 	}
 	return out
+}
+
+// text returns the concatenated source of all clauses (used for relevance filtering of axioms).
+func (ct *Contract) text() string {
+	var b strings.Builder
+	for _, c := range ct.Requires {
+		b.WriteString(c.Src + "\n")
+	}
+	for _, c := range ct.Ensures {
+		b.WriteString(c.Src + "\n")
+	}
+	for _, l := range ct.Lets {
+		b.WriteString(l.Expr.String() + "\n")
+	}
+	for _, ls := range ct.Loops {
+		for _, c := range ls.Invariants {
+			b.WriteString(c.Src + "\n")
+		}
+	}
+	for _, a := range ct.Asserts {
+		b.WriteString(a.Clause.Src + "\n")
+	}
+	return b.String()
 }
 
 func (ct *Contract) macros() map[string]SExpr {
